@@ -31,6 +31,20 @@ def io_model(rnd, stream):
             for c in m.cols:
                 if rnd.random() < 0.3:
                     c.obj = F(rnd.getrandbits(1000) + 1, rnd.getrandbits(990) + 1)
+            if rnd.random() < 0.25:
+                # one literal longer than any fixed I/O buffer (4096, 8192, ... characters)
+                bits = rnd.choice([14000, 14000, 28000, 60000])
+                # numerator and denominator both long: the value itself stays far inside (-1e150, 1e150)
+                v = F(rnd.getrandbits(bits) | (1 << (bits - 1)) | 1, rnd.getrandbits(bits - rnd.randint(0, 300)) | (1 << (bits - 301)) | 1) * rnd.choice([1, -1])
+                t = rnd.random()
+                if t < 0.4 and m.rows and m.rows[0].coef:
+                    m.rows[0].coef[next(iter(m.rows[0].coef))] = v
+                elif t < 0.7:
+                    m.cols[0].obj = v
+                elif t < 0.85 and m.rows:
+                    m.rows[0].rhs = v
+                else:
+                    m.cols[0].lo, m.cols[0].up = min(v, v + 5), INF
     m.rows = [r for r in m.rows if r.coef]
     if not m.rows:
         m.rows = [Row(None, "L", 3, 0, {m.cols[0]: F(1)})]
